@@ -67,7 +67,7 @@ def decChars : Nat → Bits → Option (List Nat × Bits)
       | some (cs, bs'') => some (c :: cs, bs'')
 
 /-- canonical decoding: value and remaining bits; `none` when a needed bit is absent
-(or a string carries a character outside 7-bit ASCII) -/
+(or the bytes of a string are not well-formed UTF-8, which the Python decoder rejects) -/
 def dec : Ty → Bits → Option (Val × Bits)
   | .uint n, bs => (readN n bs).map fun (w, r) => (.int w, r)
   | .sint n, bs => (readN n bs).map fun (w, r) => (.int (ofTwos n w), r)
